@@ -71,7 +71,9 @@ PLAN = {
                   dict(feat={"finish", "ctx", "task", "dests"}, ndest=4, init=[], dfault=0.3, maxlen=30, fault_file=True)],
         extra="c08_concurrent"),
     "C12": dict(
-        mc=[("MC_Dests.cfg", {"MaxMsgs": 4})],
+        mc=[("MC_Dests.cfg", {"MaxMsgs": 4}), ("MC_BufFaults.cfg", {"MaxMsgs": 4})],
+        # the code before the repair F12 (failure reports logged inline while the buffer is re-delivered) must be rejected
+        expect=[("MC_BufFaults_inline.cfg", "C02_EmissionOrder")],
         sim=[("MC_Dests.cfg", [], 3, {"NDest": 3, "MaxActs": 2, "MaxMsgs": 9, "Cap": 3, "Feat": '{"dests", "dfault", "finish"}', "MaxFaults": 2})],
         profiles=[dict(feat={"dests", "finish", "task"}, ndest=4, init=[], maxlen=35, dfault=0.1, fault_file=True,
                        weights={"AddDests": 1.0})],
